@@ -147,7 +147,7 @@ mod verif_c15 {
         let in_sw: bool = kani::any();       // 1x480 or 480x1
         let (w, h) = if in_sw { (1usize, 480usize) } else { (480usize, 1usize) };
         let c = YuvConfig { bit_depth: 8, subsampling_x: 0, subsampling_y: 0, full_range: false, matrix_coefficients: MC::ST170M,
-            transfer_characteristics: TC::BT1886, color_primaries: CP::Unspecified };
+            transfer_characteristics: TC::Linear, color_primaries: CP::Unspecified };     // Linear: no per-pixel curve loop (480 pixels)
         let o1 = Yuv::<u8>::try_from((LinearRgb::new(vec![[0.25, 0.5, 0.75]; 480], w, h).unwrap(), c)).unwrap();
         let l = o1.config();
         assert!(l.color_primaries == (if h == 480 { CP::ST170M } else { CP::BT709 }), "primaries guessed from the real orientation");
